@@ -356,7 +356,11 @@ class Canon:
             if isinstance(n, ast.Return):
                 has_return = True
         if not has_return:
-            return False  # only search / dispatch loops (those that can leave the function from inside)
+            # ... or a short loop over attribute names that are looked up on an object (`for c in ("a", "b"): getattr(o, c)`)
+            by_name = isinstance(tg, ast.Name) and len(st.iter.elts) <= 4 and all(isinstance(e, ast.Constant) and isinstance(e.value, str) and e.value.isidentifier() for e in st.iter.elts) and any(
+                isinstance(n, ast.Call) and isinstance(n.func, ast.Name) and n.func.id == "getattr" and len(n.args) >= 2 and isinstance(n.args[1], ast.Name) and n.args[1].id == tg.id for n in ast.walk(ast.Module(st.body, [])))
+            if not by_name:
+                return False  # only search / dispatch loops (those that can leave the function from inside)
         # the loop variables are not used after the loop is not required: they keep their last value either way
         stored = {n.id for x in st.body for n in ast.walk(x) if isinstance(n, ast.Name) and isinstance(n.ctx, ast.Store)}
         return not (stored & {n.id for n in names})
@@ -1815,6 +1819,26 @@ def canonicalise(tree: ast.Module, ref_funcs: Optional[Set[str]], ref_consts: Op
                     s_ = _Subst(nm, val)
                     s_.visit(fn)
                     stats["inlined_constants"] += s_.n
+    # ---- class-level tables of constants (`KINDS = ("a", "b")` in a class body, read as self.KINDS / cls.KINDS / Class.KINDS by
+    #      the methods of that class) are seen in place, like module-level ones
+    for cdef in [n for n in ast.walk(tree) if isinstance(n, ast.ClassDef)]:
+        for st in cdef.body:
+            if isinstance(st, (ast.Assign, ast.AnnAssign)) and st.value is not None:
+                tg = st.targets[0] if isinstance(st, ast.Assign) and len(st.targets) == 1 else (st.target if isinstance(st, ast.AnnAssign) else None)
+                if not (isinstance(tg, ast.Name) and tg.id.isupper() and isinstance(st.value, (ast.Tuple, ast.List)) and st.value.elts and all(isinstance(e, ast.Constant) for e in st.value.elts)):
+                    continue
+                if sum(1 for n in ast.walk(tree) if isinstance(n, ast.Attribute) and n.attr == tg.id and isinstance(n.ctx, ast.Store)) or sum(1 for n in ast.walk(cdef) if isinstance(n, ast.Name) and n.id == tg.id and isinstance(n.ctx, ast.Store)) != 1:
+                    continue
+                for m_ in cdef.body:
+                    if isinstance(m_, (ast.FunctionDef, ast.AsyncFunctionDef)):
+                        class _CA(ast.NodeTransformer):
+                            def visit_Attribute(self, node):
+                                self.generic_visit(node)
+                                if node.attr == tg.id and isinstance(node.ctx, ast.Load) and isinstance(node.value, ast.Name) and node.value.id in ("self", "cls", cdef.name):
+                                    stats["inlined_constants"] += 1
+                                    return ast.copy_location(copy.deepcopy(st.value), node)
+                                return node
+                        _CA().visit(m_)
     # ---- local canonical form
     for q, cls, fn, _c in funcs:
         if ".<locals>." in q:
